@@ -126,3 +126,12 @@ reg("C06", EX, "small-scope exhaustive enumeration of fields x meshes x CFL x re
     "of the real rhs for Burgers/Euler/shallow water, 16 reconstructions, on tie-free states.",
     "tau = 1e-6(1+CFL); Jacobian only where the operator is differentiable (certified per state); propagator() of implicit classes is unusable (AttributeError) and not part of the statement",
     "DESIGN.md 3/C06")
+reg("C04", EX, "exhaustive enumeration of stated lattices: operator moments read off the real rhs (exact), mesh ladders of real solves, packaged solutions vs an independent exact Riemann solver",
+    "Limited claim (convergence is asymptotic; a ladder can only refute it). E1, exact: for the 12 linear reconstructions the moments of the "
+    "circulant stencil read off the real rhs match those of -a d/dx up to the design order (1, 2, 3). E2: observed L1 order on the finest pair "
+    "of a 3-4 level ladder of real solves of sin(2 pi k x+phi) for every reconstruction x 3-5 high-order integrators x 2 wavelengths x 2 "
+    "phases x 3 speeds. E3: 42 Riemann problems and their mirror images x {hlle,hllc} x {extrapol1, muscl} x SSP integrators on n=50..200 "
+    "(400): error ratio < 1 at every refinement, <= 0.9 on the finest pair, equal errors for a problem and its mirror image; "
+    "solution.euler_riemann against an independent exact solver (Toro) at 41 x/t per problem; solution.euler_nozzle against nozzle-flow "
+    "identities for 8 NPR x 2 gamma x 2 meshes.",
+    "thresholds on a finite ladder; lattices of problems, not all data; nozzle reference for gamma != 1.4 is a known finding", "DESIGN.md 3/C04")
